@@ -429,3 +429,24 @@ Definition gen_case (ls : list lvl) : expr :=
            | [] => ELit VNull
            end in
   ECase ws d.
+
+(* the level list a comparison creator emits vs the DOCUMENTED level list (null flag, condition; None = ELSE) *)
+Fixpoint levels_match (ls : list lvl) (ex : list (bool * option expr)) : bool :=
+  match ls, ex with
+  | [], [] => true
+  | l :: t, (n, c) :: t' =>
+    Bool.eqb (l_null l) n &&
+    match l_cond l, c with
+    | Some a, Some b => same_expr a b
+    | None, None => true
+    | _, _ => false
+    end && levels_match t t'
+  | _, _ => false
+  end.
+(* index of the first level that differs (for reporting) *)
+Fixpoint first_mismatch (ls : list lvl) (ex : list (bool * option expr)) (i : nat) : option nat :=
+  match ls, ex with
+  | [], [] => None
+  | l :: t, e :: t' => if levels_match [l] [e] then first_mismatch t t' (S i) else Some i
+  | _, _ => Some i
+  end.
